@@ -31,6 +31,9 @@ def run(rep, idx, tier):
     rep.require("C17.5", 6)
     from .c02 import intervals
     intervals(rep, idx, rule="C17.5")
+    # the scope stack is popped by a statement that survives `python -O` (A1: asserts are only ever invariants)
+    rep.require("C17.6", 1)
+    _glue.pure_asserts(rep, "C17.6", idx, ("csr/reg.py",), classes=("Builder",))
     add(rep, idx)
     scopes(rep, idx)
     as_memory_map(rep, idx)
